@@ -79,7 +79,7 @@ func runCase(ctx *runner.Ctx, k cs) {
 		ctx.Violate(k.Variant+"."+site, fmt.Sprintf("%s (variant=%s sizes=%v pattern=%s shared=%v seed=%d)", what, k.Variant, k.Sizes, k.Pattern, k.Shared, k.Seed), k)
 	}
 	switch {
-	case k.Variant == "iknp-labels" || k.Variant == "iknp-labels-mal" || k.Variant == "iknp-bits":
+	case k.Variant == "iknp-labels" || k.Variant == "iknp-labels-mal" || k.Variant == "iknp-bits" || k.Variant == "iknp-mixed-bl" || k.Variant == "iknp-mixed-lb":
 		runIKNP(ctx, k, fail)
 	case strings.HasPrefix(k.Variant, "co-helpers:"):
 		runCOHelpers(ctx, k, fail)
@@ -121,7 +121,7 @@ func runIKNP(ctx *runner.Ctx, k cs, fail func(site, what string)) {
 		}
 		delta = s.Delta
 		for i, n := range k.Sizes {
-			if k.Variant == "iknp-bits" {
+			if bitForm(k, i) {
 				bs[i].sbits = make([]uint64, (n+63)/64+1)
 				if err := s.SendBits(n, bs[i].sbits); err != nil {
 					return err
@@ -145,7 +145,7 @@ func runIKNP(ctx *runner.Ctx, k cs, fail func(site, what string)) {
 			return err
 		}
 		for i, n := range k.Sizes {
-			if k.Variant == "iknp-bits" {
+			if bitForm(k, i) {
 				choices := make([]uint64, (n+63)/64+1)
 				for j, f := range bs[i].flags {
 					if f {
@@ -171,7 +171,7 @@ func runIKNP(ctx *runner.Ctx, k cs, fail func(site, what string)) {
 	}
 	for i, n := range k.Sizes {
 		bt := &bs[i]
-		if k.Variant == "iknp-bits" {
+		if bitForm(k, i) {
 			d0 := delta.Bit(0) == 1
 			bad := 0
 			first := -1
@@ -219,6 +219,19 @@ func runIKNP(ctx *runner.Ctx, k cs, fail func(site, what string)) {
 		ctx.Nontrivial(k.Variant + "/" + sizeClass(n) + "/" + k.Pattern)
 	}
 	ctx.Outcome("ok/" + k.Variant)
+}
+
+// bitForm tells whether batch i of an IKNP case uses the packed-bit form.
+func bitForm(k cs, i int) bool {
+	switch k.Variant {
+	case "iknp-bits":
+		return true
+	case "iknp-mixed-bl":
+		return i%2 == 0
+	case "iknp-mixed-lb":
+		return i%2 == 1
+	}
+	return false
 }
 
 func mkOT(variant string, rd *drbg.Reader, shared bool) ot.OT {
@@ -411,7 +424,7 @@ func work(ctx *runner.Ctx) {
 	}
 	// histories: consecutive batches on one instance
 	hs := []int{1, 8, 63, 64, 65, 512, 513}
-	for _, v := range []string{"iknp-bits", "iknp-labels", "iknp-labels-mal"} {
+	for _, v := range []string{"iknp-bits", "iknp-labels", "iknp-labels-mal", "iknp-mixed-bl", "iknp-mixed-lb"} {
 		for _, x := range hs {
 			for _, y := range hs {
 				cases = append(cases, cs{Variant: v, Sizes: []int{x, y}, Pattern: "lfsr", Seed: seed, DeltaBit0: 1})
@@ -419,6 +432,8 @@ func work(ctx *runner.Ctx) {
 					for _, z := range []int{1, 65, 513} {
 						cases = append(cases, cs{Variant: v, Sizes: []int{x, y, z}, Pattern: "alt1", Seed: seed, DeltaBit0: 1})
 					}
+				} else if strings.HasPrefix(v, "iknp-mixed") && (x+y)%3 == 0 {
+					cases = append(cases, cs{Variant: v, Sizes: []int{x, y, 65}, Pattern: "alt1", Seed: seed, DeltaBit0: 1})
 				}
 			}
 		}
